@@ -564,7 +564,6 @@ theorem encodeVar_cmp (o : SortOptions) (a b : Option (List UInt8)) :
           · simpa [invIf, compareVal] using cmpStrict_inv h2
 
 
-def compareNat (a b : Nat) : Ordering := if a < b then .lt else if b < a then .gt else .eq
 
 theorem beBytes_length (w n : Nat) : (beBytes w n).length = w := by
   induction w generalizing n with
@@ -1813,10 +1812,59 @@ theorem conforms_map {k v : Ty} {a : Val} (h : conforms (.map k v) a = true) :
     exact ⟨x, y, rfl, this.1, this.2⟩
   · simp at this
 
+theorem getD_mem (l : List Nat) (j : Nat) (h : j < l.length) : l.getD j 0 ∈ l := by
+  induction l generalizing j with
+  | nil => simp at h
+  | cons a as ih =>
+    cases j with
+    | zero => simp
+    | succ j => simp only [List.getD_cons_succ]; exact List.mem_cons_of_mem _ (ih j (by simpa using h))
+
+theorem idsDistinct_getD (l : List Nat) : ∀ (i j : Nat), idsDistinct l = true → i < l.length → j < l.length →
+    l.getD i 0 = l.getD j 0 → i = j := by
+  induction l with
+  | nil => intro i j _ hi; simp at hi
+  | cons a as ih =>
+    intro i j hd hi hj e
+    simp only [idsDistinct, Bool.and_eq_true, Bool.not_eq_true', List.contains_eq_mem, decide_eq_false_iff_not] at hd
+    cases i with
+    | zero =>
+      cases j with
+      | zero => rfl
+      | succ j =>
+        simp only [List.getD_cons_zero, List.getD_cons_succ] at e
+        exact absurd (e ▸ getD_mem as j (by simpa using hj)) hd.1
+    | succ i =>
+      cases j with
+      | zero =>
+        simp only [List.getD_cons_zero, List.getD_cons_succ] at e
+        exact absurd (e ▸ getD_mem as i (by simpa using hi)) hd.1
+      | succ j =>
+        simp only [List.getD_cons_succ] at e
+        rw [ih i j hd.2 (by simpa using hi) (by simpa using hj) e]
+
+theorem conformsNth_lt : ∀ (ts : List Ty) (i : Nat) (v : Val), conformsNth ts i v = true → i < ts.length
+  | [], _, _, h => by simp [conformsNth] at h
+  | _ :: _, 0, _, _ => by simp
+  | _ :: ts, i + 1, v, h => by
+    simp only [conformsNth] at h
+    have := conformsNth_lt ts i v h
+    simp; omega
+
+theorem conforms_union {ids : List Nat} {kids : List Ty} {a : Val} (h : conforms (.union ids kids) a = true) :
+    ∃ i x, a = .union i x ∧ conformsNth kids i x = true := by
+  cases a <;> simp [conforms] at h ⊢
+  exact ⟨_, _, ⟨rfl, rfl⟩, h⟩
+
+theorem swapIf_true (r : Ordering) : swapIf true r = r.swap := rfl
+theorem swapIf_false (r : Ordering) : swapIf false r = r := rfl
+
+theorem compareNat_self (a : Nat) : compareNat a a = .eq := by simp [compareNat]
+
 mutual
 /-- **nested order theorem** (no Map / Union): strict byte order of the model's encoding =
 the logical order `cmpN`, for every nesting depth -/
-theorem encode_cmpN : (t : Ty) → (o : SortOptions) → (a b : Val) → unionFree t = true →
+theorem encode_cmpN : (t : Ty) → (o : SortOptions) → (a b : Val) → wfTy t = true →
     conforms t a = true → conforms t b = true →
     cmpStrict (encode o t a) (encode o t b) = some (cmpN t o a b)
   | .leaf t, o, a, b, _, ha, hb => by
@@ -1831,7 +1879,7 @@ theorem encode_cmpN : (t : Ty) → (o : SortOptions) → (a b : Val) → unionFr
   | .null, o, a, b, _, _, _ => by
     simp only [encode, cmpN]; exact cmpStrict_eq_iff.mpr rfl
   | .struct fs, o, a, b, hu, ha, hb => by
-    simp only [unionFree] at hu
+    simp only [wfTy] at hu
     rcases conforms_struct ha with rfl | ⟨xs, rfl, hx⟩ <;> rcases conforms_struct hb with rfl | ⟨ys, rfl, hy⟩
     · simp only [encode, cmpN]; exact cmpStrict_eq_iff.mpr rfl
     · simp only [encode, cmpN]; exact nullHead_lt o _ _ _ structValid_eq
@@ -1839,7 +1887,7 @@ theorem encode_cmpN : (t : Ty) → (o : SortOptions) → (a b : Val) → unionFr
     · simp only [encode, cmpN, cmpStrict_cons_same]
       exact encodeFields_cmpN fs o xs ys hu hx hy
   | .list t, o, a, b, hu, ha, hb => by
-    simp only [unionFree] at hu
+    simp only [wfTy] at hu
     rcases conforms_list ha with rfl | ⟨xs, rfl, hx⟩ <;> rcases conforms_list hb with rfl | ⟨ys, rfl, hy⟩
     · simp only [encode, cmpN]; exact cmpStrict_eq_iff.mpr rfl
     · rw [encode_list_eq]; simp only [encode, cmpN]; exact listNull_lt o _
@@ -1854,7 +1902,7 @@ theorem encode_cmpN : (t : Ty) → (o : SortOptions) → (a b : Val) → unionFr
       exact lexCompare_congr _ _ xs ys (fun a ha b hb =>
         compareBytes_of_cmpStrict (encode_cmpN t (childOpts o) a b hu (hx a ha) (hy b hb)))
   | .fsl n t, o, a, b, hu, ha, hb => by
-    simp only [unionFree] at hu
+    simp only [wfTy] at hu
     rcases conforms_fsl ha with rfl | ⟨xs, rfl, hxl, hx⟩ <;> rcases conforms_fsl hb with rfl | ⟨ys, rfl, hyl, hy⟩
     · simp only [encode, cmpN]; exact cmpStrict_eq_iff.mpr rfl
     · simp only [encode, cmpN]; exact nullHead_lt o _ _ _ fslValid_eq
@@ -1863,17 +1911,17 @@ theorem encode_cmpN : (t : Ty) → (o : SortOptions) → (a b : Val) → unionFr
       exact flatten_map_cmp (fun v => encode o t v) (cmpN t o) xs ys (by omega)
         (fun a ha b hb => encode_cmpN t o a b hu (hx a ha) (hy b hb))
   | .dict t, o, a, b, hu, ha, hb => by
-    simp only [unionFree] at hu
+    simp only [wfTy] at hu
     simp only [conforms] at ha hb
     simp only [encode, cmpN]
     exact encode_cmpN t o a b hu ha hb
   | .ree t, o, a, b, hu, ha, hb => by
-    simp only [unionFree] at hu
+    simp only [wfTy] at hu
     simp only [conforms] at ha hb
     simp only [encode, cmpN]
     rw [encodeVar_cmp, compareVal_some, compareBytes_of_cmpStrict (encode_cmpN t (childOpts o) a b hu ha hb)]
   | .map k v, o, a, b, hu, ha, hb => by
-    simp only [unionFree, Bool.and_eq_true] at hu
+    simp only [wfTy, Bool.and_eq_true] at hu
     rcases conforms_map ha with rfl | ⟨xs, rfl, hx⟩ <;> rcases conforms_map hb with rfl | ⟨ys, rfl, hy⟩
     · simp only [encode, cmpN]; exact cmpStrict_eq_iff.mpr rfl
     · rw [encode_map_eq]; simp only [encode, cmpN]; exact listNull_lt o _
@@ -1901,8 +1949,50 @@ theorem encode_cmpN : (t : Ty) → (o : SortOptions) → (a b : Val) → unionFr
         simp only [entryEnc]
         rw [compareBytes_append_of_cmpStrict _ _ (encode_cmpN k (childOpts o) p p' hu.1 hp hp'),
           compareBytes_of_cmpStrict (encode_cmpN v (childOpts o) q q' hu.2 hq hq')])
-  | .union _ _, _, _, _, hu, _, _ => by simp [unionFree] at hu
-theorem encodeFields_cmpN : (ts : List Ty) → (o : SortOptions) → (xs ys : List Val) → unionFreeAll ts = true →
+  | .union ids kids, o, a, b, hu, ha, hb => by
+    simp only [wfTy, Bool.and_eq_true, decide_eq_true_eq, List.all_eq_true] at hu
+    obtain ⟨⟨⟨hlen, hlt⟩, hnd⟩, hk⟩ := hu
+    obtain ⟨i, x, rfl, hx⟩ := conforms_union ha
+    obtain ⟨j, y, rfl, hy⟩ := conforms_union hb
+    have hi := conformsNth_lt kids i x hx
+    have hj := conformsNth_lt kids j y hy
+    have hia : ids.getD i 0 < 128 := hlt _ (getD_mem ids i (by omega))
+    have hja : ids.getD j 0 < 128 := hlt _ (getD_mem ids j (by omega))
+    have key : cmpStrict (UInt8.ofNat (ids.getD i 0) :: encodeNth (childOpts o) kids i x)
+        (UInt8.ofNat (ids.getD j 0) :: encodeNth (childOpts o) kids j y)
+        = some ((compareNat (ids.getD i 0) (ids.getD j 0)).then
+            (if i = j then cmpNth kids (childOpts o) i x y else .eq)) := by
+      by_cases h1 : ids.getD i 0 < ids.getD j 0
+      · rw [cmpStrict_cons_lt _ _ (u8_ofNat_lt (by omega) h1)]
+        simp only [compareNat, if_pos h1]; rfl
+      · by_cases h2 : ids.getD j 0 < ids.getD i 0
+        · rw [cmpStrict_cons_gt _ _ (u8_ofNat_lt (by omega) h2)]
+          simp only [compareNat, if_neg h1, if_pos h2]; rfl
+        · have he : ids.getD i 0 = ids.getD j 0 := by omega
+          have hij : i = j := idsDistinct_getD ids i j hnd (by omega) (by omega) he
+          subst hij
+          rw [cmpStrict_cons_same, encodeNth_cmpN kids (childOpts o) i x y hk hx hy, compareNat_self]
+          simp
+    simp only [encode, cmpN]
+    cases hd : o.descending
+    · simpa [invIf, swapIf] using key
+    · have := cmpStrict_inv key
+      simpa [invIf, swapIf, inv] using this
+theorem encodeNth_cmpN : (ts : List Ty) → (o : SortOptions) → (i : Nat) → (x y : Val) → wfTyAll ts = true →
+    conformsNth ts i x = true → conformsNth ts i y = true →
+    cmpStrict (encodeNth o ts i x) (encodeNth o ts i y) = some (cmpNth ts o i x y)
+  | [], _, _, _, _, _, hx, _ => by simp [conformsNth] at hx
+  | t :: _, o, 0, x, y, hu, hx, hy => by
+    simp only [wfTyAll, Bool.and_eq_true] at hu
+    simp only [conformsNth] at hx hy
+    simp only [encodeNth, cmpNth]
+    exact encode_cmpN t o x y hu.1 hx hy
+  | _ :: ts, o, i + 1, x, y, hu, hx, hy => by
+    simp only [wfTyAll, Bool.and_eq_true] at hu
+    simp only [conformsNth] at hx hy
+    simp only [encodeNth, cmpNth]
+    exact encodeNth_cmpN ts o i x y hu.2 hx hy
+theorem encodeFields_cmpN : (ts : List Ty) → (o : SortOptions) → (xs ys : List Val) → wfTyAll ts = true →
     conformsAll ts xs = true → conformsAll ts ys = true →
     cmpStrict (encodeFields o ts xs) (encodeFields o ts ys) = some (cmpFieldsN ts o xs ys)
   | [], o, xs, ys, _, hx, hy => by
@@ -1914,7 +2004,7 @@ theorem encodeFields_cmpN : (ts : List Ty) → (o : SortOptions) → (xs ys : Li
       cases ys with
       | nil => simp [conformsAll] at hy
       | cons y ys =>
-        simp only [unionFreeAll, conformsAll, Bool.and_eq_true] at hu hx hy
+        simp only [wfTyAll, conformsAll, Bool.and_eq_true] at hu hx hy
         simp only [encodeFields, cmpFieldsN]
         rw [cmpStrict_append_of_cmpStrict _ _ (encode_cmpN t o x y hu.1 hx.1 hy.1),
           encodeFields_cmpN ts o xs ys hu.2 hx.2 hy.2, then_some]
@@ -1922,7 +2012,7 @@ end
 
 
 theorem encodeRowN_cmp (fs : List (Ty × SortOptions)) : ∀ (r1 r2 : List Val),
-    (∀ f ∈ fs, unionFree f.1 = true) → conformsRow fs r1 = true → conformsRow fs r2 = true →
+    (∀ f ∈ fs, wfTy f.1 = true) → conformsRow fs r1 = true → conformsRow fs r2 = true →
     cmpStrict (encodeRowN fs r1) (encodeRowN fs r2) = some (cmpRowN fs r1 r2) := by
   induction fs with
   | nil =>
